@@ -221,6 +221,12 @@ func (k *Keyed[K, V]) SyncKeys(keys []K, restart bool) (added, removed []K) {
 			added = append(added, key)
 		}
 
+		if existed && v.deferRemove != nil {
+			// cancel removing this key
+			_ = v.deferRemove.Stop()
+			v.deferRemove = nil
+		}
+
 		routines[key] = v
 		if (!existed || restart) && k.ctx != nil {
 			v.start(k.ctx, v.exitedCh, false)
